@@ -111,6 +111,14 @@ def run(ctx):
                           "script": [{"op": "adopt", "p": "c1"}, {"op": "adopt", "p": "c2"}, {"op": "accept"}, {"op": "wait_running"}, {"op": "wait_start", "p": "c1"}, {"op": "wait_start", "p": "c2"},
                                      {"op": "shutdown", "ctx": "thread", "wait": True}, {"op": "wait_end", "timeout": 4.0}, {"op": "second_accept", "timeout": 0.6}, {"op": "sleep", "ms": 50}, {"op": "shutdown2"}, {"op": "sleep", "ms": 150}],
                           "shape": "targeted-adopt-in-cleanup-during-shutdown"})
+    # the same runtime is stopped gracefully, accepts again and is stopped gracefully again
+    # (the second run is validated as an epoch of its own): shutdown() ends every run
+    for k, f in enumerate(scen.FLAVS):
+        extra.append({"seed": ctx.seed + k, "jitter": 0.0, "reaccept": True, "epoch": 2, "payloads": {"a1": {"flavour": "asyncio", "cleanup": 1}, "q": {"flavour": f, "cleanup": 1}, "t1": {"flavour": "trio", "cleanup": 1}},
+                      "script": [{"op": "adopt", "p": "a1"}, {"op": "accept"}, {"op": "wait_running"}, {"op": "wait_start", "p": "a1"}, {"op": "shutdown", "ctx": "thread", "wait": True}, {"op": "wait_end", "timeout": 4.0},
+                                 {"op": "adopt", "p": "q", "ctx": "thread", "force": True}, {"op": "adopt", "p": "t1", "ctx": "driver", "force": True}, {"op": "reaccept_start"},
+                                 {"op": "wait_start", "p": "q", "force": True}, {"op": "wait_start", "p": "t1", "force": True}, {"op": "step", "p": "t1", "force": True},
+                                 {"op": "shutdown", "ctx": "thread", "wait": True}, {"op": "reaccept_wait", "timeout": 4.0}], "shape": "targeted-stop-restart-stop"})
     # payloads that swallow their first cancellation(s)
     for k in range(3):
         extra.append({"seed": ctx.seed + k, "jitter": 0.0, "payloads": {"a1": {"flavour": "asyncio", "swallow": k, "cleanup": 1}, "t1": {"flavour": "trio"}},
